@@ -211,7 +211,7 @@ impl ViNormal {
 						ViCmd {
 							register,
 							verb: Some(VerbCmd(count, Verb::Change)),
-							motion: Some(MotionCmd(1, Motion::WholeLine)),
+							motion: Some(MotionCmd(1, Motion::WholeLineExclusive)),
 							raw_seq: self.take_cmd(),
 							flags: self.flags()
 						}
